@@ -78,10 +78,15 @@ DebugPrint == (l = DebugAt /\ DebugAt > 0) => PrintT(<<"SPEC-STATE", ToJson([nod
 ActOf(a) == IF "voters" \in DOMAIN a THEN [a EXCEPT !.voters = {a.voters[k] : k \in 1..Len(a.voters)}] ELSE a
 ActsOf(e) == IF "acts" \in DOMAIN e THEN {ActOf(e.acts[k]) : k \in 1..Len(e.acts)} ELSE {}
 \* tasks completed in the step: the same (node, operation, result) multiset in the specification and in the real run
-RealDone == {[n |-> Rec.done[k].n, op |-> Rec.done[k].op, res |-> Rec.done[k].err,
-              k |-> Cardinality({i \in 1..k : Rec.done[i].n = Rec.done[k].n /\ Rec.done[i].op = Rec.done[k].op /\ Rec.done[i].err = Rec.done[k].err})]
+RealDone == {LET d == Rec.done[k] IN
+             [n |-> d.n, op |-> d.op, res |-> d.err,
+              k |-> Cardinality({i \in 1..k : Rec.done[i].n = d.n /\ Rec.done[i].op = d.op /\ Rec.done[i].err = d.err}),
+              val |-> IF d.op = "update" THEN d.val ELSE 0,
+              pos |-> IF d.op \in {"update", "takeSnapshot"} /\ d.err = "ok" /\ "pos" \in DOMAIN d THEN d.pos ELSE 0,
+              rd  |-> IF "read" \in DOMAIN d THEN d.read ELSE << >>]
              : k \in 1..Len(Rec.done)}
-DoneMatches == ev'.done = RealDone
+DoneKey(d) == [n |-> d.n, op |-> d.op, res |-> d.res, k |-> d.k, val |-> d.val, pos |-> d.pos, rd |-> d.rd]
+DoneMatches == {DoneKey(d) : d \in ev'.done} = RealDone
 StimRf == IF "rf" \in DOMAIN Rec.stim THEN Rec.stim.rf ELSE TRUE
 \* The order in which Go ranges over l.repls in the NEXT step is a prophecy variable of Raft.tla (ordc). It can
 \* only matter when that step performs a membership action, which the next record tells; otherwise one fixed
@@ -142,7 +147,7 @@ TSnapTaken  == IsEv("snapTaken") /\ Step(SnapshotTaken(Ev.n))
 TReplFail   == IsEv("replFail") /\ Step(ReplFail(Ev.i, Ev.j))
 TReplPoll   == IsEv("replPoll") /\ Step(ReplPoll(Ev.i, Ev.j))
 TLdrUpdates == IsEv("ldrUpdates") /\ Step(LdrUpdates(Ev.n))
-TClient     == IsEv("client") /\ Len(Ev.ops) = 1 /\ Ev.ops[1].op = "update" /\ Step(ClientOp(Ev.n, Ev.ops[1].val))
+TClient     == IsEv("client") /\ Len(Ev.ops) = 1 /\ Step(ClientOp(Ev.n, Ev.ops[1].op, Ev.ops[1].val))
 TFsm        == IsEv("fsm") /\ Step(Fsm(Ev.n))
 TCrash      == IsEv("crash") /\ Step(Crash(Ev.n))
 TRestart    == IsEv("restart") /\ Step(Restart(Ev.n))
